@@ -18,7 +18,9 @@ from harness.core import Ctx, VERIF
 
 RULE = ("programs = 2-4 constructed quantities (float/int/array/Decimal magnitudes, with/without abse; one unit "
         "family: length, time, angle, dimensionless, logarithmic, temperature; sometimes a foreign unit) + random "
-        "operators (+ - * / ** neg, reflected and number operands), == / !=, NumPy functions (sqrt cbrt power sin cos "
+        "operators (+ - * / ** neg; number operands on the right and on the LEFT = the reflected operators, numbers "
+        "drawn from 0, 1, -1, 0.0, 1.0, 2, 0.5, 3; builtin sum() and math.prod() over 1-3 quantities with/without a "
+        "start quantity), == / !=, NumPy functions (sqrt cbrt power sin cos "
         "tan arcsin arccos arctan absolute floor ceil abs round sum isnan linspace logspace), value(unit), operands "
         "drawn from all live quantities incl. earlier results and x op x, interleaved with and followed by in-place "
         "methods (to text/BaseUnits/Quantity, rebase, abse, rele, in-place array writes) on every live quantity; "
@@ -43,6 +45,10 @@ ASSUMPTIONS = [
     "user code that passes a Magnitude/BaseUnits/dict of one quantity into the constructor of another creates "
     "sharing on purpose and is outside the operation list of the property",
     "numeric payload is abstracted to tokens: the model only says which cells are written and shared",
+    "np.sum / np.prod over a Python LIST of quantities is numpy's object-array reduction (no library code runs; for a "
+    "one-element list numpy returns the element itself) and is outside the property; np.sum(quantity) is covered",
+    "the returned quantity is also judged directly on the real objects: it must not BE another live quantity nor "
+    "hold the Magnitude object / value array / error array of one (C07_result_new, C07_result_separate)",
     "operations that raise are checked too (operands must be unchanged); which exception is irrelevant",
 ]
 EXPLANATION = ("theorems: heap invariant (every Magnitude owned by one quantity, every array by one Magnitude slot, "
@@ -71,6 +77,8 @@ UFUNCS = {
 }
 UF_KIND = {n: k for k, ns in UFUNCS.items() for n in ns}
 INPLACE = ("to", "rebase", "abse", "rele", "poke")
+# plain-number operands: neutral and absorbing elements of + and * (int and float), and ordinary numbers
+NUMBERS = [0, 1, -1, 0.0, 1.0, 2, 0.5, 3]
 
 
 # ------------------------------------------------------------------ generation
@@ -139,19 +147,25 @@ def gen_prog(rng, maxops):
             j = i if rng.random() < 0.15 else var()
             prog.append(["bin", op, i, j])
             nvars += 1
-        elif r < 0.36:
-            op = rng.choice(["mul", "div", "add", "sub"])
-            prog.append(["binnum", op, var(), rng.choice([2, 0.5, 3, 1]), rng.random() < 0.5])
+        elif r < 0.40:
+            # number operand on the right AND on the left (reflected operators), neutral / absorbing numbers incl.
+            op = rng.choice(["mul", "div", "add", "sub", "add", "mul", "pow"])
+            prog.append(["binnum", op, var(), rng.choice(NUMBERS), rng.random() < 0.5])
             nvars += 1
-        elif r < 0.42:
-            prog.append(["pow", var(), rng.choice([2, 3, [1, 2], -1, 0, 1])])
+        elif r < 0.44:
+            # builtin sum() / math.prod() over 1-3 quantities, with or without a start quantity
+            items = [var() for _ in range(rng.choice([1, 1, 2, 3]))]
+            prog.append(["fold", rng.choice(["sum", "prod"]), items, var() if rng.random() < 0.3 else None])
             nvars += 1
         elif r < 0.47:
+            prog.append(["pow", var(), rng.choice([2, 3, [1, 2], -1, 0, 1])])
+            nvars += 1
+        elif r < 0.51:
             prog.append(["neg", var()])
             nvars += 1
-        elif r < 0.55:
-            prog.append(["cmp", rng.choice(["eq", "ne"]), var(), var()])
         elif r < 0.57:
+            prog.append(["cmp", rng.choice(["eq", "ne"]), var(), var()])
+        elif r < 0.59:
             prog.append(["cmpnum", var(), rng.choice([0, 1, 2.0])])
         elif r < 0.70:
             name = rng.choice([n for ns in UFUNCS.values() for n in ns] + ["sin", "cos", "sqrt"])
@@ -204,7 +218,7 @@ def gen_mixed_prog(rng):
         elif r < 0.8:
             prog.append(["ufunc", rng.choice(["absolute", "negative_ufunc", "floor"]), i])
         elif r < 0.9:
-            prog.append(["binnum", rng.choice(["add", "sub", "mul"]), i, rng.choice([1, 2]), rng.random() < 0.5])
+            prog.append(["binnum", rng.choice(["add", "sub", "mul", "div"]), i, rng.choice(NUMBERS), rng.random() < 0.5])
         else:
             prog.append(["space1", "lin", i, 0, True])
         nv += 1
@@ -359,10 +373,7 @@ class Impl:
         if nv == 0:
             return op
         for pos, v in refs(op):
-            if pos == "arg":
-                op[2][1] = v % nv
-            else:
-                op[pos] = v % nv
+            set_ref(op, pos, v % nv)
         return op
 
     def add_var(self, q, prov):
@@ -425,10 +436,13 @@ class Impl:
                 before = after           # nothing happens between two steps
                 watch = self.bu_watch()
                 rec = {"op": op, "ok": True, "allowed": [], "roles": {}}
+                nh = len(self.hvar)
                 try:
                     self.one(op, rec, np, Quantity, BaseUnits)
                 except _Skip:
                     rec["skipped"] = True
+                if len(self.hvar) > nh and op[0] != "new":
+                    rec["created"] = nh          # harness index of the quantity this step returned
                 after = self.observations()
                 rec["before"], rec["after"] = before, after
                 rec["snap"] = self.snapshot()
@@ -466,6 +480,77 @@ class Impl:
                 raise _Skip()           # an unusable constructor call creates nothing on either side
             emit(["new", vk == "array", abse is not None, facts])
             self.add_var(q, "new")
+            return
+        if kind == "binnum" and op[1] == "pow":
+            # `x ** number` is __pow__; `number ** x` has no reflected method in the library (raises)
+            x = V(op[2])
+            n_ = op[3]
+            rec["roles"] = {op[2]: "right" if op[4] else "left"}
+            rec["name"] = "rpow" if op[4] else "pow"
+            facts = {}
+            try:
+                facts = dim_facts(x.baseunits * n_)
+            except Exception:
+                pass
+            ok, r = call((lambda: n_ ** x) if op[4] else (lambda: x ** n_))
+            if not ok:
+                raise _Skip()
+            if op[4]:
+                raise _Broken("number ** quantity returned a value; the model has no such operation")
+            emit(["pow", self.mi(op[2]), facts])
+            self.add_var(r, "pow")
+            return
+        if kind == "fold":
+            # builtin sum(items[, start]) = ((0 + x1) + x2) + …   math.prod(items, start=…) = ((1 * x1) * x2) * …
+            # `0 + x` / `1 * x` are the reflected operators: Quantity(number) is built, then _add/_mul(number_q, x)
+            import math
+            name, items, start = op[1], op[2], op[3]
+            xs = [V(i) for i in items]
+            rec["roles"] = {i: "item" for i in items}
+            if start is not None:
+                rec["roles"][start] = "start"
+            rec["name"] = name
+            if start is None:
+                f = (lambda: sum(xs)) if name == "sum" else (lambda: math.prod(xs))
+            else:
+                st = V(start)
+                f = (lambda: sum(xs, st)) if name == "sum" else (lambda: math.prod(xs, start=st))
+            # facts of every internal step, computed on BaseUnits only (nothing is executed twice)
+            steps = []
+            try:
+                accbu = BaseUnits() if start is None else V(start).baseunits
+                for x in xs:
+                    if name == "sum":
+                        fc = dim_facts(accbu)
+                        fc["log"] = conv_facts(accbu, x.baseunits)["log"]
+                        fc["linear"] = conv_facts(x.baseunits, accbu)["linear"]
+                    else:
+                        accbu = accbu + x.baseunits
+                        fc = dim_facts(accbu)
+                        if fc["nodim"]:
+                            from scinumtools.units.base_units import get_unit_base
+                            accbu = BaseUnits({u: e for u, e in accbu.baseunits.items()
+                                               if get_unit_base(u, e).dimensions.nodim})
+                    steps.append(fc)
+            except Exception:
+                raise _Skip()
+            ok, r = call(f)
+            if not ok:
+                raise _Skip()
+            if start is None:
+                emit(["new", False, False, {"nodim": True, "k": 0}])   # Quantity(0) / Quantity(1)
+                acc = len(self.vars)
+                self.add_hidden()
+            else:
+                acc = self.mi(start)
+            mname = "add" if name == "sum" else "mul"
+            for k, (i, fc) in enumerate(zip(items, steps)):
+                emit([mname, acc, self.mi(i), fc])
+                acc = len(self.vars)
+                if k == len(items) - 1:
+                    self.add_var(r, name)
+                else:
+                    self.add_hidden()      # the intermediate result is dropped by sum()/prod()
             return
         if kind in ("bin", "binnum"):
             name = op[1]
@@ -722,6 +807,28 @@ def oracle(impl):
             continue
         allowed = {h2m[i] for i in rec["allowed"] if i < len(h2m)}
         name = rec.get("name", rec["op"][0])
+        if "created" in rec:
+            # the returned quantity must be a NEW object (C07_result_new) that shares no Magnitude object and no
+            # value/error array with any other live quantity (C07_result_separate) — judged on the real ids
+            rh = rec["created"]
+            rm = h2m[rh]
+            mine = rec["snap"][rm]
+            for mi, other in enumerate(rec["snap"]):
+                if mi == rm or other is None or mi >= len(rec["snap"]):
+                    continue
+                hi = m2h.get(mi)
+                role = rec["roles"].get(hi, "bystander")
+                if impl.vars[mi] is impl.vars[rm]:
+                    out.append(("sameobject:%s:%s" % (name, role),
+                                "%s returned its %s operand #%d itself instead of a new quantity (every later "
+                                "in-place method on one name changes the other)" % (rec["op"], role, hi), n))
+                    continue
+                for a_, col in ((0, "Magnitude object"), (1, "value array"), (2, "error array")):
+                    if mine[a_] is not None and mine[a_] in (other[0], other[1], other[2]):
+                        out.append(("sharedcell:%s:%s:%s" % (name, role, col.split()[0].lower()),
+                                    "the result of %s shares its %s with %s quantity #%d" %
+                                    (rec["op"], col, role, hi), n))
+                        break
         for mi, (b, a) in enumerate(zip(rec["before"], rec["after"])):
             if b is None or a is None or b == a or mi in allowed:
                 continue
@@ -844,7 +951,7 @@ def judge(ctx, prog, impl, resp, stream):
 
 def creates(op):
     k = op[0]
-    if k in ("new", "bin", "binnum", "pow", "neg", "space", "space1"):
+    if k in ("new", "bin", "binnum", "pow", "neg", "space", "space1", "fold"):
         return 1
     if k == "ufunc":
         return 0 if UF_KIND[op[1]] == "test" else 1
@@ -855,6 +962,8 @@ def refs(op):
     k = op[0]
     if k == "new":
         return []
+    if k == "fold":
+        return [(("item", n), v) for n, v in enumerate(op[2])] + ([(3, op[3])] if op[3] is not None else [])
     if k in ("bin", "cmp", "space"):
         return [(2, op[2]), (3, op[3])]
     if k in ("binnum", "ufunc", "space1"):
@@ -865,6 +974,15 @@ def refs(op):
             r.append(("arg", op[2][1]))
         return r
     return [(1, op[1])]
+
+
+def set_ref(op, pos, v):
+    if pos == "arg":
+        op[2][1] = v
+    elif isinstance(pos, tuple):
+        op[2][pos[1]] = v
+    else:
+        op[pos] = v
 
 
 def actual_creates(prog):
@@ -906,10 +1024,7 @@ def drop(prog, k):
                 if first <= v < first + made:
                     return None
                 if v >= first + made:
-                    if pos == "arg":
-                        op2[2][1] = v - made
-                    else:
-                        op2[pos] = v - made
+                    set_ref(op2, pos, v - made)
         out.append(op2)
     return out
 
@@ -956,6 +1071,8 @@ def nontrivial(prog):
                 seen_op = True
             elif prog[i][0] == "new" and prog[j][0] == "new" and prog[i][3] != prog[j][3]:
                 seen_op = True
+        elif k == "fold":
+            seen_op = True
         elif k in ("ufunc", "neg", "pow", "binnum", "space1", "value"):
             i = op[2] if k in ("ufunc", "binnum", "space1") else op[1]
             if i in made_by_op or k == "ufunc":
